@@ -25,7 +25,7 @@ class AV:
                  'label', 'pv', 'orth', 'lg', 'deg', 'unit', 'taint', 'lay',
                  'fn', 'env', 'self_', 'attrs', 'ext', 'keys', 'cls', 'src',
                  'note', 'uninit', 'maybe_none', 'nonneg', 'normed', 'idx', 'lo', 'nonlin',
-                 'delta', 'cnt', 'doc')
+                 'delta', 'cnt', 'doc', 'deg_alt')
 
     def __init__(self, k, **kw):
         self.k = k
@@ -71,6 +71,9 @@ class AV:
         # 'float:<param>': value of a public parameter documented as float
         # (and not as int) -- converting it to an integer loses information
         self.doc = None
+        # when two paths with KNOWN but different degrees are joined: the
+        # list of alternatives (deg itself is then None)
+        self.deg_alt = None
         for a, v in kw.items():
             setattr(self, a, v)
         if k in ('list', 'dict', 'obj') and self.oid is None:
@@ -386,6 +389,20 @@ def _join_facets(r, a, b):
     if r.lg is None and _is_zero_const(b) and a.lg is not None:
         r.lg = a.lg
     r.deg = a.deg if a.deg == b.deg else None
+    if r.deg is None:
+        alts = []
+        for x in (a, b):
+            if x.deg is not None:
+                alts.append(x.deg)
+            elif x.deg_alt:
+                alts.extend(x.deg_alt)
+            elif x.has_const() and isinstance(x.c, (int, float)):
+                alts.append({})
+            else:
+                alts = None
+                break
+        if alts and len(alts) <= 8:
+            r.deg_alt = alts
     r.unit = a.unit if a.unit == b.unit else None
     r.taint = a.taint | b.taint
 
